@@ -145,10 +145,12 @@ def contracts(tier):
     for w in widths:
         for e in ("little", "big"):
             yield ("USBSignalInEndpoint", f"width{w}_{e}", make(w, e))
+    # signal_domain != "usb" (also in the quick tier: the only configuration in which the latch's source could be confused with
+    # the 1-bit synchroniser copy)
+    yield ("USBSignalInEndpoint", "width16_little_signal_domain_sync", make(16, "little", signal_domain="sync"))
     if tier != "quick":
         yield ("USBSignalInEndpoint", "width16_little_ep0", make(16, "little", epnum=0))
         yield ("USBSignalInEndpoint", "width16_big_ep15", make(16, "big", epnum=15))
         # signal_domain != "usb": elaborate() instantiates an FFSynchronizer on a 1-bit copy whose output is never used;
         # the latch still samples `signal` directly, so (with all domains ticking together) the same contract holds.
         # Clock-domain-crossing safety of that direct sample is outside this property.
-        yield ("USBSignalInEndpoint", "width16_little_signal_domain_sync", make(16, "little", signal_domain="sync"))
